@@ -307,6 +307,23 @@ get() {
 }
 
 /**
+ * Returns true if the next two characters of this input open a comment.
+ * Nothing is consumed.
+ */
+bool CPPPreprocessor::InputFile::
+at_comment() {
+  assert(_in != nullptr);
+
+  if (peek() != '/') {
+    return false;
+  }
+  _in->get();
+  int c = _in->peek();
+  _in->unget();
+  return (c == '*' || c == '/');
+}
+
+/**
  * Like get(), but does not advance the file pointer.
  */
 int CPPPreprocessor::InputFile::
@@ -2412,13 +2429,10 @@ get_identifier(int c, bool no_expand) {
           get();
           c = peek();
         }
-        else if (c == '/') {
-          get();
-          int next_c = peek();
-          if (next_c != '*' && next_c != '/') {
-            // Just a slash.  Put it back.
-            unget('/');
-            break;
+        else if (c == '/' && at_comment()) {
+          // (Reaching the slash may take us out of expansions that have been
+          // read to their end; each of them yields a new-line first.)
+          while (get() != '/') {
           }
           int after = skip_comment('/');
           if (after != EOF) {
@@ -3349,6 +3363,26 @@ get() {
   }
 
   return c;
+}
+
+/**
+ * Returns true if the next character that peek() returns is the first of the
+ * two characters that open a comment.
+ */
+bool CPPPreprocessor::
+at_comment() {
+  if (_unget != '\0') {
+    return false;
+  }
+  // Look past the inputs that have been read to their end, like peek() does.
+  InputFile *infile = _infile;
+  while (infile != nullptr && infile->peek() == EOF) {
+    if (infile->_prev_last_c != '\0') {
+      return false;
+    }
+    infile = infile->_parent;
+  }
+  return infile != nullptr && infile->at_comment();
 }
 
 /**
